@@ -268,8 +268,10 @@ def _kde(spec, ctx):
     # the CDF is the kernel CDF of the same estimate (up to the documented truncated mass)
     okc, F = ctx.call(model.cumulative_distribution, pts)
     if okc:
-        Fr = kref.kde_cdf(pts, base, spec['bw'], w)
-        ctx.check(np.nanmax(np.abs(np.asarray(F, dtype=float) - Fr)) <= 5e-6, 'kde.cdf-reference', 'C04:kde-cdf-not-kernel-cdf',
+        # the library's CDF is the kernel CDF minus the kernel mass m below min - 5 std (finding F2 judges m itself)
+        lower = base.min() - 5 * base.std()
+        Fr = kref.kde_cdf(pts, base, spec['bw'], w) - float(kref.kde_cdf(np.array([lower]), base, spec['bw'], w)[0])
+        ctx.check(np.nanmax(np.abs(np.asarray(F, dtype=float) - Fr)) <= 1e-9, 'kde.cdf-reference', 'C04:kde-cdf-not-kernel-cdf',
                   lambda: dict(where, worst=float(np.nanmax(np.abs(np.asarray(F, dtype=float) - Fr)))))
     ctx.nontriv('kde|%r|%r|%r|%d' % (spec['bw'], spec['weighted'], spec['sample_size'], spec['seed']))
     ctx.sample(dict(where, mode='kde'))
